@@ -251,5 +251,86 @@ def check_key_type(ctx, F, rule="E-VNM.key"):
             if not h or derefs < need:
                 ok = False
                 detail = "%s::%s does not operate on the pointee (`**self`)" % (short, fn_)
+            elif fn_ == "eq":
+                body = h["body"]
+                while isinstance(body, dict) and body.get("k") == "block" and not body.get("s") and "e" in body:
+                    body = body["e"]
+                if not (body.get("k") == "bin" and body.get("o") == "=="):
+                    ok = False
+                    detail = "PartialEq::eq is not `**self == **other`"
         ctx.ob(rule, "%s:%s" % (rule, short), ok, "Unowned<T> (key type of VarNameMap::index) %s: %s" % (short, detail))
+    return n
+
+
+def check_displaced_removed(ctx, F, rule="E-VNM.displace.nonempty"):
+    """`set_var_name` replaces a variable's name: the displaced name must leave `index` exactly when it is non-empty
+    (unnamed variables have no index entry).  From MIR: the `index.remove(&prev)` that follows the `mem::replace` lies
+    on the `false` edge of an `is_empty()` test of the displaced name."""
+    fids = [f for f in F.mir if f.startswith(MOD) and f.endswith("::set_var_name")]
+    if not ctx.anchor(rule, "VarNameMap::set_var_name", len(fids) == 1):
+        return 0
+    fid = fids[0]
+    m = F.mir[fid]
+    B = cfg.Body(m)
+    blocks = m["blocks"]
+    removes = [i for i, t in B.calls() if re.search(r"HashMap::<K, V, S, A>::remove$|HashMap<.*>::remove$", cfg.callee_name(t) or "")]
+    empties = [i for i, t in B.calls() if re.search(r"str::is_empty$|::is_empty$", cfg.callee_name(t) or "")]
+    n = 0
+    for r in removes:
+        def on_displaced(e):
+            ops = list(blocks[e]["t"].get("a") or [])[:1]
+            for _ in range(4):
+                org = origins(B, m, ops)
+                if any(o[0] == "call" and re.search(r"mem::replace$", cfg.callee_name(o[1]) or "") for o in org):
+                    return True
+                # look through deref / borrow / as_ref calls
+                ops = [o[1]["a"][0] for o in org if o[0] == "call" and o[1].get("a") and
+                       re.search(r"::(deref|borrow|as_ref|as_str)$", cfg.callee_name(o[1]) or "")]
+                if not ops:
+                    return False
+            return False
+        doms = [e for e in empties if B.dominates(e, r) and on_displaced(e)]
+        if not doms:
+            continue        # the un-naming branch (`name.is_empty()` handled before): removal is unconditional there
+        n += 1
+        ok = False
+        for e in doms:
+            t = blocks[e]["t"]
+            dest, nxt = t.get("d"), t.get("t")
+            if not isinstance(dest, int) or nxt is None:
+                continue
+            neg = None
+            cur = nxt
+            for _ in range(3):
+                b = blocks[cur]
+                for st in b["s"]:
+                    rv = st.get("rv") or {}
+                    if rv.get("k") == "un" and rv.get("o") == "Not" and cfg.op_place(rv.get("a", rv.get("op"))) == dest:
+                        neg = st.get("lhs")
+                tt = b["t"]
+                if tt["k"] == "switch":
+                    d = cfg.op_place(tt.get("d"))
+                    zero = [blk for v, blk in tt["t"] if str(v) == "0"]
+                    if d == dest:
+                        true_succ = [tt.get("o")]
+                    elif neg is not None and d == neg:
+                        true_succ = zero
+                    else:
+                        break
+                    reach = set()
+                    for sx in true_succ:
+                        if sx is not None:
+                            reach |= B.reachable_from(sx, avoid=(e,))
+                    if r not in reach:
+                        ok = True
+                    break
+                if tt["k"] == "goto" and isinstance(tt.get("t"), int):
+                    cur = tt["t"]
+                else:
+                    break
+        ctx.ob(rule, "%s:remove#%d" % (rule, n), ok,
+               "%s (%s): %s" % (F.nice(fid), F.where(fid),
+                                "the displaced name is removed from `index` exactly when it is non-empty" if ok else
+                                "the removal of the displaced name from `index` is reachable on the `prev.is_empty()` edge (or "
+                                "not guarded by that test): a non-empty old name stays in `index` and still maps to the variable"))
     return n
